@@ -175,6 +175,10 @@ def check(case) -> core.Out:
             out.viol.append((key + f"frame:{what}", f"[{label}] {detail}; frame {s[:40].hex()}"))
     if len(set(ser)) > 1:
         out.viol.append((key + "addressing-frames-differ", f"{[x[:24].hex() for x in ser]}"))
+    if route == "payload" and ser and ser[0][6:-2] != bytes(case["payload"]):
+        out.viol.append((key + "payload-not-as-given",
+                         f"frame carries {ser[0][6:-2][:24].hex()} but the payload given was "
+                         f"{bytes(case['payload'])[:24].hex()}"))
     s = ser[0]
     out.dig = core.digest((mode, route, s))
     out.nontrivial = len(s) > 8
